@@ -50,10 +50,10 @@ theorem isGreater_eq_isLess_swap (a b : List Nat) (e : Bool) : isGreater a b e =
   | case3 a as b bs e h1 h2 ih => simp [isLess, h1, h2, ih]
   | case4 l r e h =>
     cases l with
-    | nil => cases r <;> simp [isLess, eq_comm]
+    | nil => cases r <;> simp [isLess]
     | cons x xs =>
       cases r with
-      | nil => simp [isLess, eq_comm]
+      | nil => simp [isLess]
       | cons y ys => exact (h _ _ _ _ rfl rfl).elim
 
 theorem isLess_false_eq_lexLt (a b : List Nat) : isLess a b false = lexLt a b := by
@@ -70,7 +70,7 @@ theorem isLess_false_eq_lexLt (a b : List Nat) : isLess a b false = lexLt a b :=
     · by_cases h2 : a < b
       · simp [h1, h2]
       · have : a = b := by omega
-        simp [h1, h2, this, ih]
+        simp [this, ih]
 
 theorem isLess_orEqual (a b : List Nat) (e : Bool) :
     isLess a b e = (isLess a b false || (e && decide (a = b))) := by
@@ -252,16 +252,16 @@ theorem isGreaterA_eq_isLessA_swap (l r : Array Nat) (ll rl : Nat) (e : Bool) (o
     isGreaterA l r ll rl e off = isLessA r l rl ll e off := by
   fun_induction isGreaterA l r ll rl e off with
   | case1 off hc a b ha hb hab =>
-    rw [isLessA]; simp_all [and_comm]
+    rw [isLessA]; simp_all
   | case2 off hc a b ha hb hab hab' =>
-    rw [isLessA]; simp_all [and_comm]
+    rw [isLessA]; simp_all
   | case3 off hc a b ha hb hab hab' ih =>
     rw [isLessA]
     have h1 : a = b := by omega
     subst h1
-    simp_all [and_comm]
+    simp_all
   | case4 off hc hx =>
-    rw [isLessA]; simp_all [and_comm]
+    rw [isLessA]; simp_all
     split <;> simp_all
   | case5 off hc =>
     rw [isLessA]
